@@ -23,6 +23,7 @@ const c13Rule = "(a) rapid-generated sequential histories on the multihash prima
 	"(c) crash clause: workloads of the C03 generator under the crash recorder; for drawn crash images (preferably inside the hand-over / freelist processing) every complete entry that was in .free/.free.gc when the process died must, after recovery, a flush and two GC cycles, name a dead record. (b) concurrent histories on the freelist package alone (putters, Flush, ToGC with the consumer deleting the .gc file, delays injected at the named points inside Flush/ToGC from a generated schedule): multiset of all Puts = batches + final file. " +
 	"(a') the same oracle on bulk histories: 350-800 keys written, flushed, all overwritten or removed, flushed, then GC cycles - one hand-over of several hundred entries (more than any read buffer holds); " +
 	"(d) a call inside a flush: a Flush is suspended by the cooperative scheduler at a drawn point of the flush pipeline (mostly right after the commit has taken its freelist mark, with superseded locations pending before the mark), a writer task completes 1-3 overwrites/removals, the flush completes; then a Flush, and after each of two GC cycles another Flush: every superseded location must be recorded exactly once on the freelist files / hand-overs, nothing else, and no current location; " +
+	"(e) concurrently requested GC cycles: superseded locations are flushed, two or three primary GC cycles are requested at the same time, twice, each time followed by a Flush and the books (presented + recorded exactly once each); " +
 	"non-trivial = (a) >=3 superseded locations spread over >=2 completed hand-overs, (b) >=2 hand-overs while puts were in flight; distinct = distinct canonical JSON of the case"
 
 type c13Stats struct {
@@ -430,6 +431,134 @@ func runC13Inside(c SuspCase) (hit bool, v *Violation) {
 	})
 }
 
+// --- (e) overlapping GC requests -------------------------------------------
+
+// runC13Overlap: superseded locations are flushed, then two or three primary
+// GC cycles are requested at the same time (a requested cycle next to the
+// periodic one is the everyday form); afterwards the books must balance: every
+// superseded location presented exactly once.
+func runC13Overlap(c SuspCase) (presented int, v *Violation) {
+	dir := newScratch("c13ov")
+	defer os.RemoveAll(dir)
+	s, err := openStore(dir, c.Cfg)
+	if err != nil {
+		panic(infraError{err})
+	}
+	defer closeQuietly(s)
+	enc := func(k int) []byte { return c.Keys[k%len(c.Keys)].Encode(c.Cfg.Primary, false) }
+	expected := locCount{}
+	observed := locCount{}
+	var omu sync.Mutex
+	locs := func() map[int]types.Block {
+		out := map[int]types.Block{}
+		for k, ks := range c.Keys {
+			if blk, found, err := s.Index().Get(ks.Digest); err == nil && found {
+				if key, _, err := s.Primary().Get(blk); err == nil && key != nil {
+					if ik, err := s.Primary().IndexKey(key); err == nil && string(ik) == string(ks.Digest) {
+						out[k] = blk
+					}
+				}
+			}
+		}
+		return out
+	}
+	around := func(fn func() error) error {
+		before := locs()
+		if err := fn(); err != nil {
+			return err
+		}
+		after := locs()
+		for k, b := range before {
+			if a, still := after[k]; !still || a != b {
+				expected[b]++
+			}
+		}
+		return nil
+	}
+	n := 0
+	for _, op := range append(append(append([]Op{}, c.Prefix...), c.Unflushed...), Op{K: opFlush}) {
+		n++
+		k := op.Key % len(c.Keys)
+		var err error
+		switch op.K {
+		case opPut, opRePut:
+			err = around(func() error { return s.Put(enc(k), valueFor(n, op.VLen, false)) })
+		case opRemove:
+			err = around(func() error { _, e := s.Remove(enc(k)); return e })
+		case opFlush:
+			err = s.Flush()
+		}
+		if err != nil {
+			return 0, nil
+		}
+	}
+	vhook.SetHandler(func(name string) {
+		if name != "pgc.fl.remove" {
+			return
+		}
+		ents, err := parseFreelist(filepath.Join(dir, idxBase+".free.gc"))
+		if err != nil {
+			return
+		}
+		omu.Lock()
+		for _, e := range ents {
+			observed[types.Block{Offset: types.Position(e.Offset), Size: types.Size(e.Size)}]++
+		}
+		omu.Unlock()
+	})
+	defer vhook.SetHandler(nil)
+	mp := mhPrimaryOf(s)
+	return len(expected), guard(-1, "c13-overlap", func() *Violation {
+		for round := 0; round < 2; round++ {
+			around(func() error {
+				var wg sync.WaitGroup
+				for g := 0; g < 2+len(c.Keys)%2; g++ {
+					wg.Add(1)
+					go func() {
+						defer wg.Done()
+						mp.GC(bg, int64(c.GCLow))
+					}()
+				}
+				wg.Wait()
+				return nil
+			})
+			if err := s.Flush(); err != nil {
+				return nil
+			}
+			final := locCount{}
+			omu.Lock()
+			for b, n := range observed {
+				final[b] = n
+			}
+			omu.Unlock()
+			for _, name := range []string{idxBase + ".free", idxBase + ".free.gc"} {
+				ents, err := parseFreelist(filepath.Join(dir, name))
+				if err != nil {
+					return nil
+				}
+				for _, e := range ents {
+					final[types.Block{Offset: types.Position(e.Offset), Size: types.Size(e.Size)}]++
+				}
+			}
+			site := fmt.Sprintf("after-overlapping-gc-requests-%d|", round+1)
+			for b, n := range expected {
+				switch got := final[b]; {
+				case got < n:
+					return viol("freed-location-lost|"+site, -1, "location %d/%d was superseded %d time(s) but is recorded / was presented %d time(s) after concurrently requested GC cycles (expected %v, recorded %v)", b.Offset, b.Size, n, got, expected, final)
+				case got > n:
+					return viol("freed-location-duplicated|"+site, -1, "location %d/%d was superseded %d time(s) but was presented to GC / is recorded %d times after concurrently requested GC cycles (expected %v, recorded %v)", b.Offset, b.Size, n, got, expected, final)
+				}
+			}
+			for b := range final {
+				if expected[b] == 0 {
+					return viol("unexpected-freed-location|"+site, -1, "location %d/%d was presented / is recorded although nothing superseded it (expected %v, recorded %v)", b.Offset, b.Size, expected, final)
+				}
+			}
+		}
+		return nil
+	})
+}
+
 // --- (b) freelist package under concurrency -------------------------------
 
 // FLCase is a concurrent history on one freelist.
@@ -637,7 +766,12 @@ func TestC13(t *testing.T) {
 			var c SuspCase
 			readReplay(envReplay, &c)
 			for i := 0; i < 10; i++ {
-				_, v := runC13Inside(c)
+				var v *Violation
+				if strings.Contains(r.Signature, "overlapping-gc-requests") {
+					_, v = runC13Overlap(c)
+				} else {
+					_, v = runC13Inside(c)
+				}
 				ev.Record(c, true)
 				if v = judge(v); v != nil {
 					ev.Report(v, c)
@@ -839,6 +973,23 @@ func TestC13(t *testing.T) {
 			cl = append(cl, "call-inside-suspended-flush:superseded-inside@"+c.PointFlush)
 		}
 		ev.Record(c, hit, cl...)
+		if v = judge(v); v != nil && ev.Report(v, c) {
+			rt.Fatalf("%v", v)
+		}
+	})
+	if t.Failed() {
+		return
+	}
+	// (e) concurrently requested GC cycles.
+	setRapidChecks(budget(300, 1000))
+	rapid.Check(t, func(rt *rapid.T) {
+		if pastDeadline() {
+			ev.Skip()
+			return
+		}
+		c := genC13Inside(rt)
+		n, v := runC13Overlap(c)
+		ev.Record(c, n >= 2, "overlapping-gc-requests")
 		if v = judge(v); v != nil && ev.Report(v, c) {
 			rt.Fatalf("%v", v)
 		}
